@@ -3,6 +3,7 @@ package printer
 import (
 	"bytes"
 	"github.com/z7zmey/php-parser/pkg/ast"
+	"github.com/z7zmey/php-parser/pkg/position"
 	"github.com/z7zmey/php-parser/pkg/token"
 	"io"
 )
@@ -18,6 +19,11 @@ type printer struct {
 	output io.Writer
 	state  printerState
 	last   []byte
+
+	// source positions of the previous and of the current chunk, nil for
+	// text that does not come from a token of the parsed source
+	lastPos *position.Position
+	pos     *position.Position
 }
 
 func NewPrinter(output io.Writer) *printer {
@@ -47,11 +53,15 @@ func (p *printer) write(b []byte) {
 		p.state = PrinterStatePHP
 	}
 
-	if p.last != nil && isValidVarName(p.last[len(p.last)-1]) && isValidVarName(b[0]) {
+	// two tokens that touch in the source (like "1and") are written as they were
+	adjacent := p.lastPos != nil && p.pos != nil && p.lastPos.EndPos == p.pos.StartPos
+
+	if p.last != nil && !adjacent && isValidVarName(p.last[len(p.last)-1]) && isValidVarName(b[0]) {
 		p.output.Write([]byte(" "))
 	}
 
 	p.last = b
+	p.lastPos = p.pos
 	p.output.Write(b)
 }
 
@@ -89,9 +99,12 @@ func (p *printer) printToken(t *token.Token, def []byte) {
 	}
 
 	for _, ff := range t.FreeFloating {
+		p.pos = ff.Position
 		p.write(ff.Value)
 	}
+	p.pos = t.Position
 	p.write(t.Value)
+	p.pos = nil
 }
 
 func (p *printer) ifNode(n ast.Vertex, val []byte) []byte {
